@@ -30,7 +30,21 @@ def _snap(w, pool, gen_rec):
     groups = sorted(pool._task_groups)
     return (pool.num_running, pool.num_cancelled, pool.num_ended, pool.is_locked, pool._num_started, groups,
             [sorted(pool.get_group_ids(g)) for g in groups], sorted(pool._group_meta_tasks_running),
-            gen_rec["pulled"], dict(w.calls), len(w.W), w.live, pool._closed.is_set())
+            (gen_rec["pulled"], gen_rec.get("iters", 0)), dict(w.calls), len(w.W), w.live, pool._closed.is_set())
+
+
+class Feed:
+    """An argument iterable on which even asking for an iterator is observable (cursor-/file-backed sources)."""
+
+    def __init__(self, rec, items):
+        self.rec, self.items = rec, items
+
+    def __iter__(self):
+        self.rec["iters"] = self.rec.get("iters", 0) + 1
+        rec = self.rec
+        for it in self.items:
+            rec["pulled"] += 1
+            yield it
 
 
 def plain_function(*a, **k):
@@ -84,7 +98,7 @@ def tpl_reject(size, m, pfx, locked, closed, notcoro, c, dup, _twin=False):
                 gname = "G" if dup else None
                 if m == 0:
                     return pool.apply(func, num=2, group_name=gname)
-                gen = w.counting_gen(gen_rec, [(1,), (2,)] if m != 3 else [{}, {}])
+                gen = Feed(gen_rec, [(1,), (2,)] if m != 3 else [{}, {}])
                 if m == 1:
                     return pool.map(func, gen, num_concurrent=c, group_name=gname)
                 if m == 2:
